@@ -171,6 +171,31 @@ def templates(tier="quick"):
     T.append(scenario("manifest_regen/built", "template", [va, vb], files=files, ops=ops, init=[4], depth=d,
                       tags=["generator", "manifest-regen", "built"]))
 
+    # T16b a manifest written in parts: the generator (restat, as generators that only touch what changes are) writes build.ninja
+    # and the file it pulls in with `subninja`; the two variants differ only in the included file, so a regeneration leaves
+    # build.ninja itself alone
+    def split(name, ver):
+        a = Stmt("a", ex=["s"], ver=ver)
+        a.scope = "rules.ninja"
+        v = Variant(name, [Stmt("build.ninja", ex=["build.ninja.in", "rules.ninja.in"], iouts=["rules.ninja"], generator=True,
+                                restat=True, copy=True), a, Stmt("b", ex=["a"])], defaults=["b"])
+        v.title = "written in parts"
+        return v
+    sa, sb = split("p0", 0), split("p1", 1)
+    assert sa.manifest() == sb.manifest()
+    ops = [
+        {"op": "write", "path": "rules.ninja.in", "content": sb.scoped_files()["rules.ninja"], "label": "rules.ninja.in:=p1"},
+        {"op": "write", "path": "rules.ninja.in", "content": sa.scoped_files()["rules.ninja"], "label": "rules.ninja.in:=p0"},
+        {"op": "touch", "path": "build.ninja.in", "label": "touch build.ninja.in"},
+        {"op": "edit", "path": "s", "label": "edit s"},
+        ninja_op(j=1), ninja_op(j=3),
+    ]
+    files = {"build.ninja.in": sa.manifest(), "rules.ninja.in": sa.scoped_files()["rules.ninja"], "s": "s-v0\n"}
+    T.append(scenario("manifest_in_parts_regen/fresh", "template", [sa, sb], files=files, ops=ops, init=[], depth=2,
+                      tags=["generator", "manifest-regen", "restat", "fresh"]))
+    T.append(scenario("manifest_in_parts_regen/built", "template", [sa, sb], files=files, ops=ops, init=[4], depth=d,
+                      tags=["generator", "manifest-regen", "restat", "built"]))
+
     # T17 two independent chains, partial targets
     v = Variant("v0", [Stmt("a1", ex=["s"]), Stmt("a2", ex=["a1"]), Stmt("b1", ex=["t"]), Stmt("b2", ex=["b1", "a1"])])
     T += _mk("two_chains", [v], tags=["plain", "partial-targets"], depth=d, targets_extra=["a2", "b2"], pair_faults=True)
